@@ -283,6 +283,7 @@ func c05Run(s *Shard) {
 	}
 	s.Bounds["matrix_n"] = n
 	s.Bounds["matrix_levels"] = levels
+	c05PairFamily(s)
 	for _, nn := range []int{2, 3, n} {
 		if nn == 3 && n == 3 {
 			continue
@@ -315,6 +316,68 @@ func c05Run(s *Shard) {
 			s.Report(c05CheckMatrix(c))
 		})
 	}
+}
+
+// c05PairFamily: 4x4 credibility matrices built pair by pair — every unordered pair {i,j} is either mutually credible at one
+// of six well separated levels (no outranking: a tie that survives the cut at that level), or one-sided at that level, or
+// not credible at all — under a small constant distillation function, so that every level is a cut of its own. This is
+// the family in which a tie of k alternatives survives k and more successive cuts before a lower cut breaks it.
+func c05PairFamily(s *Shard) {
+	lv := []float64{1, 0.85, 0.7, 0.55, 0.4, 0.25}
+	kinds := 3 // level x {mutual, i over j, j over i}, or nothing
+	if quick(s) {
+		kinds = 2 // quick: {mutual, i over j}
+	}
+	opts := kinds*len(lv) + 1
+	pairs := [][2]int{{0, 1}, {2, 3}, {0, 2}, {1, 3}, {1, 2}, {0, 3}}
+	dims := []int{opts, opts, opts, opts, opts, opts}
+	s.Bounds["pair_family"] = fmt.Sprintf("4x4, 6 pairs x (6 levels x %d kinds of {mutual, one-sided, other-sided} + none), >=5 distinct levels, s(x) in {0.05, 0.1-0.05x}", kinds)
+	Product(dims, func(idx []int) {
+		if !s.Take() {
+			return
+		}
+		// at least four pairs at pairwise different levels, otherwise the instance is covered by the small-level grids
+		used := map[int]bool{}
+		for _, o := range idx {
+			if o > 0 {
+				used[(o-1)/kinds] = true
+			}
+		}
+		if len(used) < 5 {
+			return
+		}
+		var m [4][4]float64
+		for p, o := range idx {
+			if o == 0 {
+				continue
+			}
+			l, kind := lv[(o-1)/kinds], (o-1)%kinds
+			i, j := pairs[p][0], pairs[p][1]
+			if kind == 0 || kind == 1 {
+				m[i][j] = l
+			}
+			if kind == 0 || kind == 2 {
+				m[j][i] = l
+			}
+			if kind == 0 {
+				m[j][i] = l - 0.02 // near-equal, not equal
+			}
+		}
+		var flat []float64
+		for i := 0; i < 4; i++ {
+			for j := 0; j < 4; j++ {
+				if i != j {
+					flat = append(flat, m[i][j])
+				}
+			}
+		}
+		for _, d := range []distFn{{A: 0, B: 0.05}, {A: -0.05, B: 0.1}} {
+			c := &Case{Prop: "C05", Kind: "matrix", Params: M{"n": 4, "sigma": flat, "a": d.A, "b": d.B}}
+			s.Evals++
+			s.Begin(c)
+			s.Report(c05CheckMatrix(c))
+		}
+	})
 }
 
 func init() {
